@@ -4,6 +4,7 @@ import (
 	"fmt"
 	"sort"
 	"strconv"
+	"strings"
 
 	"github.com/frankkopp/FrankyGo/internal/config"
 	"github.com/frankkopp/FrankyGo/internal/history"
@@ -83,7 +84,7 @@ func c08Monitor(args []string) int {
 	prevFen := ""
 	var prevMoves []Move // moves of the previous position (for stale / alien state)
 	lastODKey := uint64(0)
-	w.Stream(n, true, func(g GamePos) {
+	body := func(g GamePos) {
 		p := g.P
 		fen := p.StringFen()
 		rep.Cases++
@@ -389,7 +390,49 @@ func c08Monitor(args []string) int {
 		prevMoves = append(prevMoves[:0], w.legalMoves(p)...)
 		prevFen = fen
 		rep.Sample(map[string]interface{}{"fen": fen, "pseudo_legal": len(legal)})
-	})
+	}
+	w.Stream(n, true, body)
+	// one-mover positions: the king of the side to move is stalemated by a fixed net and ONE more piece or pawn
+	// of its colour stands somewhere (pawns also on their start rank with the single or the double step blocked):
+	// whether a legal move exists then depends on exactly one stage of the generator / of HasLegalMove
+	nets := []string{"k7/P7/K7/8/8/8/8/8 b - - 0 1", "7k/5K2/6Q1/8/8/8/8/8 b - - 0 1", "k7/2Q5/1K6/8/8/8/8/8 b - - 0 1", "7k/7P/5K2/8/8/8/8/8 b - - 0 1", "5k2/5P2/5K2/8/8/8/8/8 b - - 0 1"}
+	for k := 0; k < 40+n/20; k++ {
+		net := nets[rng.Intn(len(nets))]
+		f := strings.Fields(net)
+		board := expandFenBoard(f[0])
+		kind := "pppnbrq"[rng.Intn(7)]
+		sq := rng.Intn(64)
+		if kind == 'p' {
+			if rng.Chance(60) {
+				sq = 48 + rng.Intn(8) // start rank
+			} else {
+				sq = 8 + rng.Intn(48)
+			}
+		}
+		if board[sq] != ' ' {
+			continue
+		}
+		board[sq] = kind
+		if kind == 'p' && rng.Chance(70) { // a blocker one or two squares ahead
+			ahead := sq - 8
+			if rng.Bool() && sq >= 48 {
+				ahead = sq - 16
+			}
+			if ahead >= 0 && board[ahead] == ' ' {
+				board[ahead] = "PNBp"[rng.Intn(4)]
+			}
+		}
+		fen := compressFenBoard(board) + " b - - 0 1"
+		if rng.Bool() {
+			fen = mirrorFen(fen)
+		}
+		p, err := position.NewPositionFen(fen)
+		if err != nil || p == nil || p.IsAttacked(p.KingSquare(p.NextPlayer().Flip()), p.NextPlayer()) {
+			continue
+		}
+		rep.Stats["one_mover_positions"]++
+		body(GamePos{Root: fen, P: p})
+	}
 	_ = position.StartFen
 	return rep.Emit()
 }
